@@ -246,12 +246,16 @@ OpSet(s, probes) ==
     \cup {[op |-> "concat", d |-> p[1], src |-> p[2]] : p \in {x \in Lists \X Lists : x[1] # x[2] /\ s.offk[x[1]] = s.offk[x[2]]}}   \* like-configured lists only
     \cup {[op |-> "swap", a |-> p[1], b |-> p[2]] : p \in {x \in Lists \X Lists : x[1] <= x[2]}}   \* a = b: swapped with itself
     \cup {[op |-> "clear", l |-> l] : l \in Lists}
-    \cup UNION {{[op |-> "foreach", l |-> l, rev |-> rv, stop |-> st, er |-> TRUE] :
+    \* nest: the visit function makes read-only calls on the list being walked (a lookup, a complete nested walk)
+    \cup UNION {{[op |-> "foreach", l |-> l, rev |-> rv, stop |-> st, er |-> TRUE, nest |-> FALSE] :
                     rv \in BOOLEAN, st \in 0..Len(q[l])} : l \in Lists}
     \cup (IF probes THEN
-            UNION {{[op |-> "foreach", l |-> l, rev |-> rv, stop |-> st, er |-> FALSE] :
-                      rv \in BOOLEAN, st \in 0..Len(q[l])} : l \in Lists}
-            \cup {[op |-> "find", l |-> l, v |-> v, rev |-> rv] : l \in Lists, v \in Vals \cup {0}, rv \in BOOLEAN}
+            UNION {{[op |-> "foreach", l |-> l, rev |-> rv, stop |-> st, er |-> FALSE, nest |-> ne] :
+                      rv \in BOOLEAN, st \in 0..Len(q[l]), ne \in BOOLEAN} : l \in Lists}
+            \* key: the object handed to find is a separate one (0) or a member of the list itself - the comparison
+            \* function relates a field of the key object to the elements, it need not be reflexive
+            \cup UNION {{[op |-> "find", l |-> l, v |-> v, rev |-> rv, key |-> k] :
+                            v \in Vals \cup {0}, rv \in BOOLEAN, k \in {0} \cup SeqSet(q[l])} : l \in Lists}
             \cup {[op |-> "peek", l |-> l] : l \in Lists}
           ELSE {})
 =============================================================================
